@@ -2042,7 +2042,7 @@ def corr(ctx, oracle_only=False, scale=1):
     else:
         guard(res, 'part-real', {}, part_real, ctx, res, ['all-and', 'or-mix', 'any', 'never'], oracle_only)
     # last, so that the cases of the parts above are the same as before this part existed
-    guard(res, 'part-coupled', {}, (lambda: part_coupled(ctx, res, ctx.n(75, 3000) * scale, oracle_only, coupled_real_jobs(ctx))))
+    guard(res, 'part-coupled', {}, (lambda: part_coupled(ctx, res, ctx.n(75, 2000) * scale, oracle_only, coupled_real_jobs(ctx))))
     res.monitored = list(MONITORED)
     finish(res)
     return res
